@@ -4,6 +4,7 @@ import Proofs.Visits
 import Proofs.NoIdleGlobal
 import Proofs.NoIdleBack
 import Proofs.NoIdleAlt
+import Proofs.NoIdleBackAlt
 import Proofs.TeamFit
 import Proofs.WFCheck
 /-!
@@ -269,5 +270,22 @@ theorem no_idle_final_with_alternative (e : Env) (wf : WF e) (tr : Tree e) (t r1
           ((runScenario e).led.get r i).usage ≠ [] ∨ Exhausted e (runScenario e) t r i :=
   runScenario_doneIdleAlt e wf tr t r1 r2 hel
     (runScenario_scheduled_done e t ⟨hel.el.leaf, hel.el.effort, hel.el.nomile⟩ hs) hf
+
+/-- **C08 with an alternative, ALAP half** (`Proofs/NoIdleBackAlt`): after scheduling ANY well-formed project, every backward
+    effort task `t` reported as scheduled with one primary and one alternative resource (both leaves) ends no later than its
+    deadline (`deadlineG`: the end it carried when the loop started, else the earliest `start − gap` of its successors and the
+    project end in the FINAL schedule), is booked on ONE of its two candidates, and on that one, between any slot `L` in which
+    it is booked and the last slot before the deadline, every slot in which the resource is on shift and not on leave carries a
+    booking in the final ledger, or a limit refuses it. -/
+theorem no_idle_final_alap_with_alternative (e : Env) (wf : WF e) (tr : Tree e) (t r1 r2 : Nat) (hel : EligAltB e t r1 r2)
+    (hs : ((runScenario e).tst t).scheduled = true) (hf : ((runScenario e).tst t).forward = false) :
+    (∃ v, ((runScenario e).tst t).stop = some v ∧ v ≤ deadlineG e (loopStart e) (runScenario e) t) ∧
+    ∃ r, (r = r1 ∨ r = r2) ∧ (∃ L, usageOf ((runScenario e).led.get r L).usage t ≠ none) ∧
+      ∀ L, usageOf ((runScenario e).led.get r L).usage t ≠ none →
+        ∀ i, L ≤ i → i ≤ e.idx (deadlineG e (loopStart e) (runScenario e) t) - 1 →
+          e.onShift r i = true → e.leaveMark r i = false →
+          ((runScenario e).led.get r i).usage ≠ [] ∨ Exhausted e (runScenario e) t r i :=
+  (runScenario_doneIdleBAlt e wf tr t r1 r2 hel
+    (runScenario_scheduled_done e t ⟨hel.el.leaf, hel.el.effort, hel.el.nomile⟩ hs) hf).2
 
 end SP.C08
